@@ -291,3 +291,45 @@ func (f *Fn) NoPathAvoid(rule string, a, b Matcher, avoidDesc string, av []Loc) 
 	f.C.Pass(rule, f.Where(), what, fmt.Sprintf("%d×%d pairs", len(as), len(bs)))
 	return true
 }
+
+// AssignsAllFields: function fnRef (a reset / re-initialisation method) assigns every field of
+// struct structRef through its receiver, except the listed ones (name → reason).  A field that is
+// left out keeps the value of the previous use.
+func (c *Ctx) AssignsAllFields(rule, fnRef, structRef string, except map[string]string) bool {
+	f := c.Fn(fnRef)
+	st, ok := c.P.Named(structRef).Underlying().(*types.Struct)
+	if !ok {
+		undecided("%s is not a struct", structRef)
+	}
+	assigned := map[string]bool{}
+	ast.Inspect(f.Body, func(x ast.Node) bool {
+		as, ok := x.(*ast.AssignStmt)
+		if !ok {
+			return true
+		}
+		for _, l := range as.Lhs {
+			if se, ok := ast.Unparen(l).(*ast.SelectorExpr); ok {
+				if sel := f.Info.Selections[se]; sel != nil {
+					if v, ok := sel.Obj().(*types.Var); ok && v.IsField() {
+						assigned[v.Name()] = true
+					}
+				}
+			}
+		}
+		return true
+	})
+	var missing []string
+	for i := 0; i < st.NumFields(); i++ {
+		n := st.Field(i).Name()
+		if _, ex := except[n]; !ex && !assigned[n] {
+			missing = append(missing, n)
+		}
+	}
+	what := short(fnRef) + " assigns every field of " + short(structRef)
+	if len(missing) > 0 {
+		c.Fail(rule, fnRef, what, c.P.Pos(f.Body.Pos()), "not re-initialised (keeps the value of the previous use): "+strings.Join(missing, ", "))
+		return false
+	}
+	c.Pass(rule, fnRef, what, fmt.Sprintf("%d fields", st.NumFields()))
+	return true
+}
